@@ -236,4 +236,7 @@ package keeper
 //@                 (Keeper).OnCloseGroup#*, (Keeper).OnPauseGroup#*, (Keeper).OnStartGroup#*, (Keeper).OnBidClosed#*, (Keeper).OnLeaseClosed#*,
 //@                 lemma:depKeepsRefl, lemma:depKeepsTrans, lemma:depKeepsHas, lemma:depKeepsWF, lemma:depKeepsClosedDep, lemma:depKeepsDead, lemma:depKeepsCloseGroup, lemma:depKeepsCloseDeployment, lemma:depKeyPrefix, lemma:grpKeyPrefix, lemma:grpsKeyPrefix, lemma:depWFSetDeployment, lemma:depWFSetGroup, lemma:depWFGet, lemma:depWFGetGroup, lemma:depWFEnumGroup
 
+// C16: exactly the typed event on the state-changing path, none otherwise
+//@ property C16 := (Keeper).Create#*, (Keeper).UpdateDeployment#*, (Keeper).CloseDeployment#*, (Keeper).OnCloseGroup#*, (Keeper).OnPauseGroup#*, (Keeper).OnStartGroup#*, (Keeper).OnBidClosed#*
+
 //@ property C06 := deploymentKey#*, groupKey#*, groupsKey#*, lemma:deploymentKeyInj, lemma:groupKeyInj, lemma:groupsExact, lemma:dkindsDisjoint
